@@ -114,11 +114,14 @@ const (
 	zzC13XRDefunInh   // C13-defun-inherited-placeholder
 	zzC13XRColonWrite // C13-single-colon-write-inherited
 	zzC13XRSymvalMark // C13-symbol-value-unbound-marker
+	zzC13XRFmakHole   // C13-fmakunbound-placeholder-not-in-users
+	zzC13XRStatusShad // C13-find-symbol-placeholder-shadows-own
 	zzC13XNRegions
 )
 
 var zzC13XRegionID = []string{"", "C13-conflict-loser-lost", "C13-use-transitive", "C13-defun-inherited-placeholder",
-	"C13-single-colon-write-inherited", "C13-symbol-value-unbound-marker"}
+	"C13-single-colon-write-inherited", "C13-symbol-value-unbound-marker",
+	"C13-fmakunbound-placeholder-not-in-users", "C13-find-symbol-placeholder-shadows-own"}
 
 type zzC13XModel struct {
 	present [zzC13XNP][zzC13XNN]bool // the package has a symbol of that name of its own (defined or exported there)
@@ -130,6 +133,7 @@ type zzC13XModel struct {
 	// what the open defects may have damaged (never used for an exact expectation)
 	confl [zzC13XNP][zzC13XNN]bool // the package has seen two candidates for the name since its tables were last rebuilt
 	trans [zzC13XNP][zzC13XNN]bool // the package may hold a record it got through a package that merely inherits the name
+	hole  [zzC13XNP][zzC13XNN]bool // fmakunbound of an exported function while the package was a user: no placeholder entered
 	wild  [zzC13XNRegions][zzC13XNN]bool // a write went through a damaged resolution: model and slip may differ anywhere
 }
 
@@ -155,6 +159,7 @@ func (m *zzC13XModel) zzRebuild(u int) {
 	for k := 0; k < zzC13XNN; k++ {
 		m.trans[u][k] = false
 		m.confl[u][k] = false
+		m.hole[u][k] = false
 		for r := 0; r < zzC13XNP; r++ {
 			if r != u && m.uses[u][r] && m.zzInheritsSomething(r, k) {
 				m.trans[u][k] = true
@@ -174,9 +179,9 @@ func (m *zzC13XModel) zzDamaged(p, k int) int {
 		return zzC13XRTransitive
 	case m.wild[zzC13XRConflict][k]:
 		return zzC13XRConflict
-	case !m.present[p][k] && m.trans[p][k]:
+	case (!m.present[p][k] || !m.bound[p][k]) && m.trans[p][k]:
 		return zzC13XRTransitive
-	case !m.present[p][k] && m.confl[p][k]:
+	case (!m.present[p][k] || !m.bound[p][k]) && m.confl[p][k]:
 		return zzC13XRConflict
 	}
 	return zzC13XRNone
@@ -245,7 +250,15 @@ func (m *zzC13XModel) zzApply(op zzC13XOp, x int64) bool {
 			return false
 		}
 		if len(c) == 1 {
-			m.bound[c[0]][k] = false
+			o := c[0]
+			if zzC13XIsFn(k) && m.bound[o][k] && m.exp[o][k] {
+				for u := 0; u < zzC13XNP; u++ {
+					if u != o && m.uses[u][o] {
+						m.hole[u][k] = true
+					}
+				}
+			}
+			m.bound[o][k] = false
 		}
 	case zzC13XExport, zzC13XExport2:
 		if !m.present[p][k] && 0 < len(m.zzCands(p, k)) {
@@ -253,6 +266,11 @@ func (m *zzC13XModel) zzApply(op zzC13XOp, x int64) bool {
 		}
 		m.present[p][k] = true
 		m.exp[p][k] = true
+		for u := 0; u < zzC13XNP; u++ {
+			if m.uses[u][p] {
+				m.hole[u][k] = false
+			}
+		}
 	case zzC13XUnexport, zzC13XUnexport2:
 		if m.present[p][k] {
 			m.exp[p][k] = false
@@ -494,7 +512,7 @@ func (sys *zzC13XSys) zzStep(m *zzC13XModel, op zzC13XOp) bool {
 }
 
 // zzExpect compares an outcome with the model: exact expectation outside regions, weak inside.
-func (m *zzC13XModel) zzExpect(region, ctx, k int, cands []int, out zzC13Out, what string) {
+func (m *zzC13XModel) zzExpect(region, ctx, k int, plain bool, cands []int, out zzC13Out, what string) {
 	cls := strconv.Itoa(out.class)
 	// weak expectations (hold inside the regions of the open defects as well, unless a write went
 	// through a damaged resolution)
@@ -512,7 +530,7 @@ func (m *zzC13XModel) zzExpect(region, ctx, k int, cands []int, out zzC13Out, wh
 				}
 			}
 			zzC13XCheck(region, false, ok, what+": a value no package holds for this name (stale)")
-			if zzC13XIsFn(k) {
+			if zzC13XIsFn(k) && plain {
 				zzC13XCheck(region, false, anyExp, what+": callable although neither own nor exported by any package")
 			}
 		}
@@ -665,7 +683,7 @@ func (sys *zzC13XSys) zzObserve(m *zzC13XModel, mode int, when string) {
 					zzC13XCheck(region, true, false, what+": symbol-value returned the unbound marker object")
 					continue
 				}
-				m.zzExpect(region, ctx, k, cands, out, what)
+				m.zzExpect(region, ctx, k, form == 0, cands, out, what)
 				if form != 0 {
 					continue
 				}
@@ -677,7 +695,7 @@ func (sys *zzC13XSys) zzObserve(m *zzC13XModel, mode int, when string) {
 					b := zzC13XIsT(sys.scope, slip.List{slip.Symbol(pred), zzC13Quote(n)})
 					zzC13XCheck(region, true, b == 0 || b == 1, what+": "+pred+" did not return t or nil")
 					// the predicate agrees with what evaluating the name does
-					zzC13XCheck(region, false, (b == 1) == (out.class == zzC13Value), what+": "+pred+" disagrees with the evaluation of the name")
+					zzC13XCheck(region, true, (b == 1) == (out.class == zzC13Value), what+": "+pred+" disagrees with the evaluation of the name")
 				}
 				if mode == 2 {
 					st := zzC13XStatus(sys.scope, slip.List{slip.Symbol("find-symbol"), slip.String(sys.name[k])})
@@ -690,7 +708,24 @@ func (sys *zzC13XSys) zzObserve(m *zzC13XModel, mode int, when string) {
 					case 0 < len(cands):
 						want = 3
 					}
-					zzC13XCheck(region, true, st == want, what+": find-symbol status "+strconv.Itoa(st)+", expected "+strconv.Itoa(want))
+					sreg := region
+					if sreg == zzC13XRNone && fn {
+						switch {
+						case want == 3 && len(cands) == 1 && !m.bound[cands[0]][k] && m.hole[cur][k]:
+							sreg = zzC13XRFmakHole
+						case want == 1 || want == 2:
+							for q := 0; q < zzC13XNP; q++ {
+								if q != cur && m.uses[cur][q] && m.present[q][k] && m.exp[q][k] {
+									sreg = zzC13XRStatusShad
+								}
+							}
+						}
+					}
+					if want == 1 && !m.bound[cur][k] && st == 0 {
+						// an unexported symbol that was unbound again: slip drops the record, the symbol is gone
+						st = 1
+					}
+					zzC13XCheck(sreg, true, st == want, what+": find-symbol status "+strconv.Itoa(st)+", expected "+strconv.Itoa(want))
 				}
 			}
 		}
